@@ -71,6 +71,10 @@ def f_and(*fs):
     for f in fs:
         if f is TT or f == TT:
             continue
+        if len(cur) * len(f) > 4096:
+            cur, f = weaken(cur), weaken(f)
+            if len(cur) * len(f) > 4096:
+                return TT
         nxt = []
         for a in cur:
             for b in f:
@@ -83,6 +87,14 @@ def f_and(*fs):
             if len(cur) > MAXCONJ:
                 cur = TT
     return cur
+
+
+def pcify(f):
+    """path facts never keep the literals of unrecognised conditions (keys starting with '~'): sound weakening that keeps the
+    formulas small; such literals survive only inside severity / certainty case distinctions and bound booleans"""
+    if not any(l[0] == 'l' and l[1].startswith("~") for c in f for l in c):
+        return f
+    return _absorb([frozenset(l for l in c if not (l[0] == 'l' and l[1].startswith("~"))) for c in f])
 
 
 def atom(a):
@@ -148,8 +160,17 @@ def is_value_type(ty):
     return base_type(ty) in ("ValueFlow::Value", "Value")
 
 
+def is_pure_obj(ty):
+    """object expressions whose members are read as pure accessors: ValueFlow::Value, or any const-qualified class object"""
+    return is_value_type(ty) or bool(re.search(r"\bconst\b", ty or "")) and not is_bool(ty) and base_type(ty) not in ("Token", "Settings", "Tokenizer", "Scope", "Variable", "Function", "Library")
+
+
 def is_settings_type(ty):
     return base_type(ty) == "Settings"
+
+
+def tracked(ty):
+    return (is_bool(ty) and "*" not in ty) or (enum_kind(ty) is not None and "*" not in ty) or is_pure_obj(ty)
 
 
 def kids(n):
@@ -231,6 +252,7 @@ class Analyzer:
             for rec in d.get("paramdefaults", []):
                 self.defaults.setdefault(rec["key"], rec["defaults"])
         self.memo = {}
+        self._av_cache = {}
         self.rows = {}              # (file, line, fnshort, ids, sevleaf, cert) -> DNF
         self.site_info = {}
         self.calls_to = {}          # callee key -> set(caller key)
@@ -343,17 +365,45 @@ class Analyzer:
                     changed = True
         self.relevant = rel
 
+    def _code_lines(self, p):
+        try:
+            text = open(p, encoding="utf-8", errors="replace").read()
+        except OSError:
+            return []
+        text = re.sub(r"/\*.*?\*/", lambda m: re.sub(r"[^\n]", " ", m.group(0)), text, flags=re.S)
+        out = []
+        off = 0         # nesting depth inside an inactive `#ifdef CHECK_INTERNAL` block (the build does not define it)
+        for i, line in enumerate(text.split("\n"), 1):
+            st = line.strip()
+            if off:
+                if re.match(r"#\s*if", st):
+                    off += 1
+                elif re.match(r"#\s*endif", st):
+                    off -= 1
+                elif off == 1 and re.match(r"#\s*else", st):
+                    off = 0
+                out.append((i, ""))
+                continue
+            if re.match(r"#\s*ifdef\s+CHECK_INTERNAL\b", st) or re.match(r"#\s*if\s+defined\s*\(?\s*CHECK_INTERNAL\b", st):
+                off = 1
+                out.append((i, ""))
+                continue
+            code = re.sub(r'"([^"\\]|\\.)*"', '""', line)
+            code = re.sub(r"'([^'\\]|\\.)'", "' '", code)
+            code = re.sub(r"//.*$", "", code)
+            out.append((i, code))
+        return out
+
     def textual_external_callers(self):
         """occurrences `name(` of relevant member functions in lib/ and cli/ that no analysed call / declaration explains"""
         names = {}
         for k in self.relevant:
             f = self.fns[k]
-            if f.name in ("runChecks", "getErrorMessages", "analyseWholeProgram", "getFileInfo", "loadFileInfoFromXml", "reportError") or \
-                    f.name.startswith("operator") or f.name == (f.cls or "").split("::")[-1]:
+            if f.name in ("runChecks", "getErrorMessages", "analyseWholeProgram", "getFileInfo", "loadFileInfoFromXml") or \
+                    f.name.startswith("operator") or f.name == (f.cls or "").split("::")[-1] or f.name.startswith("~"):
                 continue
             names.setdefault(f.name, []).append(k)
-        if not names:
-            return {}
+        names["reportError"] = []
         explained = {}
         for (file, ln, le, name, caller) in self.call_nodes:
             if name in names:
@@ -364,37 +414,40 @@ class Analyzer:
                 decl_lines.setdefault((os.path.basename(f.file or ""), f.name), set()).add(f.line)
         rx = re.compile(r"\b(" + "|".join(sorted(map(re.escape, names), key=len, reverse=True)) + r")\s*\(")
         ext = {}
+        self.unexplained_sites = []
         files = sorted(glob.glob(os.path.join(REPO, "lib", "*.cpp")) + glob.glob(os.path.join(REPO, "lib", "*.h")) +
                        glob.glob(os.path.join(REPO, "cli", "*.cpp")))
         for p in files:
             bn = os.path.basename(p)
-            try:
-                text = open(p, encoding="utf-8", errors="replace").read()
-            except OSError:
-                continue
-            text = re.sub(r"/\*.*?\*/", lambda m: re.sub(r"[^\n]", " ", m.group(0)), text, flags=re.S)
-            for i, line in enumerate(text.split("\n"), 1):
-                code = re.sub(r'"([^"\\]|\\.)*"', '""', line)
-                code = re.sub(r"//.*$", "", code)
+            lines = self._code_lines(p)
+            words = set(re.findall(r"\bCheck\w*", "\n".join(c for _, c in lines)))
+            for i, code in lines:
                 for m in rx.finditer(code):
                     name = m.group(1)
-                    pre = code[:m.start()]
-                    # declaration / definition lines: `T name(` or `T Class::name(` at statement start
-                    if re.search(r"(::|[\w>&\*]\s)\s*$", pre) and not re.search(r"(return|else|\(|,|=|&&|\|\||!|\?|:)\s*$", pre.replace("::", "")) \
-                            and not re.search(r"[.>]\s*$", pre):
-                        if re.search(r"::\s*$", pre) or bn.endswith(".h") or i in decl_lines.get((bn, name), ()):
-                            continue
+                    if name != "reportError" and not any((self.fns[k].cls or "").split("::")[0] in words for k in names[name]):
+                        continue
+                    if name == "reportError" and not bn.startswith("check"):
+                        continue
                     if any(a <= i <= b for a, b in explained.get((bn, name), ())):
                         continue
                     if i in decl_lines.get((bn, name), ()):
                         continue
+                    pre = code[:m.start()].rstrip()
+                    if re.search(r"[\w>\*&]$", pre) and not re.search(r"\b(return|else|case|throw|new|delete|co_return|co_yield)$", pre):
+                        continue        # `T name(`: declaration (header) / definition of a function of that name
+                    where = "%s:%d" % (os.path.relpath(p, REPO), i)
+                    if name == "reportError":
+                        self.unexplained_sites.append(where)
+                        continue
                     for k in names[name]:
-                        ext.setdefault(k, []).append("%s:%d" % (os.path.relpath(p, REPO), i))
+                        if (self.fns[k].cls or "").split("::")[0] in words:
+                            ext.setdefault(k, []).append(where)
         return ext
 
     # ---- expression evaluation -----------------------------------------------------------------------------------
     def uid(self, n, fr):
-        return "%s:e%s@L%s" % (fr.tag, str(n.get("id", ""))[-6:], n.get("ln", "?"))
+        """key of an unrecognised condition / expression: unique per AST node ('~' = never added to path facts, see pcify)"""
+        return "~%s:e%s@L%s" % (fr.tag, str(n.get("id", ""))[-6:], n.get("ln", "?"))
 
     def objkey(self, n, fr):
         n = strip(n)
@@ -486,7 +539,7 @@ class Analyzer:
             inner = strip(kids(n)[0]) if kids(n) else {}
             if inner.get("kind") == "MemberExpr" and kids(inner):
                 obj = kids(inner)[0]
-                if is_value_type(obj.get("ty", "")):
+                if is_pure_obj(obj.get("ty", "")):
                     ok = self.objkey(obj, fr)
                     if ok:
                         return babs_lit("%s.%s" % (ok, inner.get("name")))
@@ -559,7 +612,7 @@ class Analyzer:
             if sp and is_bool(n.get("ty", "")):
                 return babs_lit("S." + sp)
             obj = kids(n)[0] if kids(n) else None
-            if obj is not None and is_value_type(obj.get("ty", "")) and is_bool(n.get("ty", "")):
+            if obj is not None and is_pure_obj(obj.get("ty", "")) and is_bool(n.get("ty", "")):
                 ok = self.objkey(obj, fr)
                 if ok:
                     return babs_lit("%s.%s" % (ok, n.get("name")))
@@ -596,10 +649,10 @@ class Analyzer:
                               f_or(f_and(ic[1], vinc[1]), atom(('inc',))))
                     f = f_or(cond[0], darg[0], ic[0], vinc[0])
                     return (t, f)
-                if is_value_type(oty) and not args:
+                if is_pure_obj(oty) and not args:
                     ok = self.objkey(obj, fr)
                     if ok:
-                        if name == "errorSeverity":
+                        if name == "errorSeverity" and is_value_type(oty):
                             cond, darg = babs_lit(ok + ".condition"), babs_lit(ok + ".defaultArg")
                             return (f_and(cond[1], darg[1]), f_or(cond[0], darg[0]))
                         return babs_lit("%s.%s" % (ok, name))
@@ -608,22 +661,32 @@ class Analyzer:
 
     # ---- statements ------------------------------------------------------------------------------------------------
     def assigned_vars(self, n):
+        """tracked-type variables (bool / Severity / Certainty / ValueFlow::Value pointers) that may be written inside n"""
+        if not isinstance(n, dict):
+            return frozenset()
+        c = self._av_cache.get(id(n))
+        if c is not None:
+            return c
         out = set()
         for x in walk(n):
             k = x.get("kind")
             if k in ("BinaryOperator", "CompoundAssignOperator") and x.get("opcode") in ASSIGN_OPS and kids(x):
                 t = strip(kids(x)[0])
-                if t.get("kind") == "DeclRefExpr":
+                if t.get("kind") == "DeclRefExpr" and tracked(t.get("ref", {}).get("ty", "")):
                     out.add(t.get("ref", {}).get("id"))
             elif k == "UnaryOperator" and x.get("opcode") in ("++", "--") and kids(x):
                 t = strip(kids(x)[0])
-                if t.get("kind") == "DeclRefExpr":
+                if t.get("kind") == "DeclRefExpr" and tracked(t.get("ref", {}).get("ty", "")):
                     out.add(t.get("ref", {}).get("id"))
         out |= self.escaping_vars(n)
+        out.discard(None)
+        out = frozenset(out)
+        self._av_cache[id(n)] = out
         return out
 
     def escaping_vars(self, n):
-        """tracked-type local variables referenced as lvalues outside a plain read (address taken, bound to a reference, ...)"""
+        """non-const bool / enum local variables referenced as lvalues outside a plain read (address taken, bound to a
+        reference parameter, ...): treated as written there"""
         out = set()
 
         def rec(x, parent_reads):
@@ -634,8 +697,16 @@ class Analyzer:
                 r = x.get("ref", {})
                 if r.get("kind") in ("VarDecl", "ParmVarDecl") and not parent_reads:
                     ty = r.get("ty", "")
-                    if (is_bool(ty) or enum_kind(ty)) and not re.search(r"\bconst\b", ty.split("*")[-1] if "*" in ty else ty):
+                    if (is_bool(ty) or enum_kind(ty)) and "*" not in ty and not re.search(r"\bconst\b", ty):
                         out.add(r.get("id"))
+                return
+            if k in ("BinaryOperator", "CompoundAssignOperator") and x.get("opcode") in ASSIGN_OPS and kids(x):
+                ks = kids(x)
+                t = strip(ks[0])
+                if t.get("kind") != "DeclRefExpr":
+                    rec(ks[0], False)
+                for c in ks[1:]:
+                    rec(c, False)
                 return
             reads = (k == "ImplicitCastExpr" and x.get("castKind") == "LValueToRValue")
             for c in x.get("inner", []):
@@ -690,7 +761,7 @@ class Analyzer:
                 fr.bind[did] = ('bool', own)
         elif enum_kind(ty) and "*" not in ty and init is not None:
             fr.bind[did] = ('enum', self.enum_abs(init, fr))
-        elif init is not None and is_value_type(ty) and ("*" in ty or "&" in ty):
+        elif init is not None and is_pure_obj(ty) and ("*" in ty or "&" in ty):
             ok = self.objkey(init, fr)
             if ok:
                 fr.bind[did] = ('obj', ok)
@@ -727,16 +798,16 @@ class Analyzer:
         k = n.get("kind")
         if k == "BinaryOperator" and n.get("opcode") in ("&&", "||"):
             a, b = kids(n)
-            ab = self.bool_abs(a, fr)
+            ab = B_ANY if self.assigned_vars(a) else self.bool_abs(a, fr)
             self.visit_expr(a, fr, pc, out)
-            self.visit_expr(b, fr, f_and(pc, ab[0] if n["opcode"] == "&&" else ab[1]), out)
+            self.visit_expr(b, fr, f_and(pc, pcify(ab[0] if n["opcode"] == "&&" else ab[1])), out)
             return
         if k == "ConditionalOperator":
             c, a, b = kids(n)
-            cb = self.bool_abs(c, fr)
+            cb = B_ANY if self.assigned_vars(c) else self.bool_abs(c, fr)
             self.visit_expr(c, fr, pc, out)
-            self.visit_expr(a, fr, f_and(pc, cb[0]), out)
-            self.visit_expr(b, fr, f_and(pc, cb[1]), out)
+            self.visit_expr(a, fr, f_and(pc, pcify(cb[0])), out)
+            self.visit_expr(b, fr, f_and(pc, pcify(cb[1])), out)
             return
         if k == "LambdaExpr":
             body = None
@@ -783,10 +854,18 @@ class Analyzer:
             return
         for c in kids(n):
             self.visit_expr(c, fr, pc, out)
-        # an lvalue use of a tracked variable that is not a read: unknown write
-        esc = set()
-        if k == "DeclRefExpr":
-            pass
+        # an lvalue use of a tracked variable that is not a plain read: unknown write at this point
+        if not (k == "ImplicitCastExpr" and n.get("castKind") == "LValueToRValue"):
+            for c in kids(n):
+                cc = c
+                while cc.get("kind") == "ParenExpr" and kids(cc):
+                    cc = kids(cc)[0]
+                if cc.get("kind") == "DeclRefExpr":
+                    r = cc.get("ref", {})
+                    ty = r.get("ty", "")
+                    if r.get("kind") in ("VarDecl", "ParmVarDecl") and (is_bool(ty) or enum_kind(ty)) and "*" not in ty and \
+                            not re.search(r"\bconst\b", ty):
+                        self.havoc(fr, [r.get("id")])
         return
 
     def ids_of(self, n, fr):
@@ -910,12 +989,17 @@ class Analyzer:
                 binds.append(('bool', self.bool_abs(a, fr)))
             elif enum_kind(ty) and "*" not in ty:
                 binds.append(('enum', tuple(self.enum_abs(a, fr))))
-            elif is_value_type(ty) and ("*" in ty or "&" in ty):
+            elif is_pure_obj(ty) and ("*" in ty or "&" in ty):
                 ok = self.objkey(a, fr)
                 binds.append(('obj', ok) if ok else None)
             else:
                 binds.append(None)
         stack = fr.stack
+        if callee.key == fr.fn.key and self.passthrough(callee, args, fr):
+            # direct recursion that hands every tracked parameter on unchanged: the inner activation satisfies the same entry
+            # facts as the current one, whose rows (weaker path facts, all environments) already cover it
+            self.stats["recursion_passthrough"] = self.stats.get("recursion_passthrough", 0) + 1
+            return
         if callee.key in stack:
             gk = "generic:" + callee.key
             if gk in stack:
@@ -924,13 +1008,27 @@ class Analyzer:
             res = self.analyze(callee, None, stack + (gk,))
             wpc = weaken(pc)
             for site, ls, c, f in res:
-                out.append((site, ls, c, f_and(wpc, weaken(f) if False else f)))
+                out.append((site, ls, c, f_and(wpc, f)))
             return
         res = self.analyze(callee, tuple(binds), stack + (callee.key,))
         for site, ls, c, f in res:
             g = f_and(pc, f)
             if g != FF:
                 out.append((site, ls, c, g))
+
+    def passthrough(self, fn, args, fr):
+        for i, p in enumerate(fn.params):
+            ty = p.get("ty", "")
+            if not tracked(ty):
+                continue
+            if i >= len(args):
+                return False
+            a = strip(args[i])
+            if a.get("kind") != "DeclRefExpr" or a.get("ref", {}).get("id") != p.get("id"):
+                return False
+            if p.get("id") in fr.all_assigned or fr.ver.get(p.get("id"), 0) != 0:
+                return False
+        return True
 
     def analyze(self, fn, binds, stack):
         mk = (fn.key, binds, stack if any(s.startswith("generic:") for s in stack) else None)
@@ -943,8 +1041,10 @@ class Analyzer:
             self.stats["memo_hits"] += 1
             return self.memo[mk]
         self.stats["inlined"] += 1
-        fr = Frame(fn, fn.short)
+        fr = Frame(fn, "%s@%s" % (fn.short, fn.line))
         fr.stack = stack
+        fr.all_assigned = self.assigned_vars(fn.body)
+        fr.switch_vars = []
         for i, p in enumerate(fn.params):
             did = p.get("id")
             fr.names[did] = p.get("name")
@@ -987,7 +1087,7 @@ class Analyzer:
             k = s.get("kind")
             if k in ("CaseStmt", "DefaultStmt"):
                 cur = fr.switch_pc[-1] if fr.switch_pc else fr.entry_pc
-                self.havoc(fr, fr.switch_vars[-1] if getattr(fr, "switch_vars", None) else [])
+                self.havoc(fr, fr.switch_vars[-1] if fr.switch_vars else [])
                 sub = kids(s)
                 # CaseStmt: [ConstantExpr..., substatement]; nested case labels chain through the last child
                 for c in sub[:-1]:
@@ -1020,18 +1120,19 @@ class Analyzer:
         cond = inner[idx]
         then = inner[idx + 1] if idx + 1 < len(inner) else None
         els = inner[idx + 2] if s.get("hasElse") and idx + 2 < len(inner) else None
-        if any(True for _ in self.assigned_vars(cond) - self.escaping_vars(cond)):
+        if self.assigned_vars(cond):
             cb = B_ANY
         else:
             cb = self.bool_abs(cond, fr)
         self.visit_expr(cond, fr, pc, out)
         bind0, ver0 = dict(fr.bind), dict(fr.ver)
+        pt, pe = pcify(cb[0]), pcify(cb[1])
         if then is not None:
-            self.exec_stmt(then, fr, f_and(pc, cb[0]), out)
+            self.exec_stmt(then, fr, f_and(pc, pt), out)
         bind_t = fr.bind
         fr.bind = dict(bind0)
         if els is not None:
-            self.exec_stmt(els, fr, f_and(pc, cb[1]), out)
+            self.exec_stmt(els, fr, f_and(pc, pe), out)
         bind_e = fr.bind
         t_exit = self.always_exits(then) if then is not None else False
         e_exit = self.always_exits(els) if els is not None else False
@@ -1040,10 +1141,10 @@ class Analyzer:
         after = pc
         if t_exit and not e_exit:
             fr.bind = bind_e
-            after = f_and(pc, cb[1])
+            after = f_and(pc, pe)
         elif e_exit and not t_exit:
             fr.bind = bind_t
-            after = f_and(pc, cb[0])
+            after = f_and(pc, pt)
         else:
             # join: variables assigned in either branch are merged (enum) or become opaque (bool)
             merged = dict(bind0)
@@ -1116,8 +1217,6 @@ class Analyzer:
                 self.exec_stmt(c, fr, pc, out) if c.get("kind") == "DeclStmt" else self.visit_expr(c, fr, pc, out)
             self.havoc(fr, av)
             fr.switch_pc.append(pc)
-            if not hasattr(fr, "switch_vars"):
-                fr.switch_vars = []
             fr.switch_vars.append(av)
             bind0 = dict(fr.bind)
             if inner:
@@ -1165,9 +1264,10 @@ class Analyzer:
             f = self.fns[k]
             if f.name == "getErrorMessages":
                 continue
-            callers = [c for c in self.calls_to.get(k, ()) if self.fns[c].name != "getErrorMessages" and c != k]
+            allc = [c for c in self.calls_to.get(k, ()) if c != k]
+            callers = [c for c in allc if self.fns[c].name != "getErrorMessages"]
             why = None
-            if not callers:
+            if not allc:
                 why = "no analysed caller"
             elif k in ext:
                 why = "textual occurrence not explained by an analysed call: " + ", ".join(ext[k][:3])
@@ -1188,12 +1288,3 @@ class Analyzer:
                 rows[key] = f_or(rows.get(key, FF), fm)
         self.rows = rows
         return rows
-
-
-def all_assigned_patch(an):
-    """Frame.all_assigned is needed at labels: computed lazily per function"""
-    orig = an.analyze
-
-    def analyze(fn, binds, stack):
-        return orig(fn, binds, stack)
-    return analyze
